@@ -88,7 +88,10 @@ def rule_level_range(ctx, rule, fi, obj="self", attr="limit_level", exceptions=N
             ctx.ok(rule, fi.site, f"loop {t}: frozen exception — {exceptions[t]}", key=t)
             continue
         ok = lo == Ratio(0) and hi == want
-        ctx.check(ok, rule, fi.site, f"level loop ranges over 0..{obj}.{attr} inclusive",
+        # a loop over the *length of per-level lists* built elsewhere (results of another method) visits what those
+        # lists hold: not a static quantity here
+        by_len = len(args) == 1 and norm(args[0]).startswith(("len(", "min(len(")) and "self." not in norm(args[0])
+        ctx.decide(ok, not by_len, rule, fi.site, f"level loop ranges over 0..{obj}.{attr} inclusive",
                   f"level loop `for {var} in {t}` does not range over range({obj}.{attr} + 1)", key=t,
                   where=loc(fi, loop))
         # a level loop that is left early does not range over all its levels either
